@@ -61,6 +61,18 @@ class SymBallot(dict):
     def __iter__(self):
         return iter(self.keys())
 
+    def values(self):
+        return [SV(v) for v in self.idx.values() if bool(SB(v >= 0))]
+
+    def get(self, k, default=None):
+        return self[k] if k in self else default
+
+    def __len__(self):
+        return len(self.keys())
+
+    def __bool__(self):
+        return len(self.keys()) > 0
+
 
 def ballot_vars(ex, cands, tag="r"):
     idx = {c: z3.Int(f"{tag}_{c}") for c in cands}
